@@ -309,7 +309,10 @@ def replay_file(path, verbose=True):
             hit = vj
             break
     info = {"digest": res.digest, "digest_expected": doc.get("digest"), "violations": [v.to_json() for v in res.violations],
-            "digest_match": (not doc.get("digest")) or res.digest == doc.get("digest")}
+            "digest_match": (not doc.get("digest")) or res.digest == doc.get("digest"),
+            # the same clause violated with another signature: what remains of a violation whose details depend on state the library
+            # carries from one run to the next inside a worker process (e.g. a class-level mutable attribute)
+            "clause_hit": next((v.to_json() for v in res.violations if v.clause == doc["expect"]["clause"]), None)}
     if verbose:
         if hit:
             print("replay: reproduced clause=%s sig=%s" % (hit["clause"], json.dumps(hit["sig"], sort_keys=True)))
@@ -423,7 +426,10 @@ def run_check(name, tier, base_seed, jobs=None, only=None):
                             env=dict(os.environ, PYTHONHASHSEED="0", PYTHONDONTWRITEBYTECODE="1"))
         print("violation: clause=%s sig=%s" % (best_v["clause"], json.dumps(best_v["sig"], sort_keys=True)))
         print("  " + best_v.get("detail", "")[:1500])
-        if rc.returncode != 1:
+        if rc.returncode == 4:
+            print("note: in a fresh interpreter the replay violates the same clause with another signature - the details depend on state the "
+                  "library carried over from earlier runs in the worker process; the violation itself stands")
+        elif rc.returncode != 1:
             print("HARNESS-ERROR: replay %s did not reproduce in a fresh interpreter (rc=%s)\n%s" % (path, rc.returncode, rc.stdout[-2000:] + rc.stderr[-2000:]))
             return 2
         print("VIOLATION property=%s replay=%s" % (prop, path))
